@@ -218,7 +218,7 @@ fn labels() -> Labels {
     for x in ["v:0", "v:1", "v:1000", "v:1001"] {
         l.vals.insert(hex(&val(x)), x.into());
     }
-    for x in ["salt:1", "salt:64", "salt:65"] {
+    for x in ["salt:0", "salt:1", "salt:64", "salt:65"] {
         l.salts.insert(hex(&salt(x)), x.into());
     }
     l
